@@ -87,14 +87,16 @@ def run_path(eng, contract, types, src):
                     eng.param_syms[p] = env[p]
             if contract.pre_hook:
                 contract.pre_hook(eng)
+            eng.frames[0].env = eng.clause_env(env)
             for cl in contract.requires + contract.variant_requires.get(sh.variant_name, []):
                 eng.assume(eng.truth(eng.eval_clause(cl)))
+            eng.frames[0].env = env
             if "requires" not in sh.cover:
                 r = smt.check_sat(eng.pc, sh.timeout_ms, want_model=False)[0]
                 sh.cover["requires"] = r
                 if r == "unsat":
                     raise RuntimeError("vacuous: requires of %s is unsatisfiable" % contract.key)
-            eng.env0 = dict(env)
+            eng.env0 = eng.clause_env(env)
             eng.heap0 = dict(eng.heap)
             eng.lists0 = eng.snapshot_lists()
             outcome = None
@@ -139,7 +141,7 @@ def post_state(eng, contract, src, outcome):
             for p, v in eng.env0.items():
                 post_env["_final_" + p] = env.get(p, v)
                 post_env[p] = v
-            post_env["result"] = outcome[1]
+            post_env["result"] = eng.math_view(outcome[1])
             eng.frames[0].env = post_env
             for i, (exc, when) in enumerate(contract.raises):
                 eng.prove(z3.Not(eng.truth(eng.eval_clause(when))), "raises_iff", "no %s => not(%s)" % (exc.__name__, when), src.first_line, assume_after=False)
